@@ -56,12 +56,16 @@ func (g *Graph) Blob(mt string, content string) modelreg.Desc {
 	return modelreg.Desc{MediaType: mt, Digest: d, Size: int64(len(b))}
 }
 
+// ExternalHost is the authority of the URLs that foreign layers carry (a harness may build a graph
+// variant with another one by setting it around Build).
+var ExternalHost = "external.example"
+
 // Foreign returns a descriptor of a layer that is not hosted (urls set).
 func (g *Graph) Foreign(content string) modelreg.Desc {
 	b := []byte(content)
 	d := modelreg.Digest(g.Algo, b)
 	g.External[d] = true
-	return modelreg.Desc{MediaType: MTDockerForeign, Digest: d, Size: int64(len(b)), URLs: []string{"http://external.example/" + d}}
+	return modelreg.Desc{MediaType: MTDockerForeign, Digest: d, Size: int64(len(b)), URLs: []string{"http://" + ExternalHost + "/" + d}}
 }
 
 func (g *Graph) addManifest(mt string, doc any) modelreg.Desc {
